@@ -83,6 +83,11 @@ theorem Design.mem_allSites {D : Design} {b : Nat} {c : Call} :
       exact ⟨b, hb, c, h, rfl, rfl⟩
     · rw [D.body_of_ge (by omega)] at h; simp [Body.empty] at h
 
+theorem Design.lt_of_call {D : Design} {b : Nat} {c : Call} (h : c ∈ (D.body b).calls) : b < D.n := by
+  by_cases hb : b < D.n
+  · exact hb
+  · rw [D.body_of_ge (by omega)] at h; simp [Body.empty] at h
+
 /-- well-formedness of the extracted design: callees are methods of the design
 (manager.py:84 `MBody(method_obj._body)`) -/
 def Design.WF (D : Design) : Prop :=
@@ -325,7 +330,7 @@ def NoImplicitConflict (D : Design) (t1 t2 : Nat) : Prop :=
 /-- the run signals of method bodies (manager.py:550–555): a method runs iff some running
 transaction has an enabled call chain to it -/
 def MethodRunEq (D : Design) (v : Val) (run : Nat → Bool) : Prop :=
-  ∀ m, D.isTrans m = false →
+  ∀ m, m < D.n → D.isTrans m = false →
     (run m = true ↔ ∃ t ch, D.isTrans t = true ∧ run t = true ∧ IsChain D t ch ∧ target ch = some m ∧
       chainEn v ch = true)
 
@@ -344,7 +349,7 @@ theorem active_chain {D v run b c} (hrun : MethodRunEq D v run) (h : ActiveSite 
   by_cases ht : D.isTrans b = true
   · exact ⟨b, [c], ht, hr, .single hc, by simp [chainEn, he], rfl⟩
   · have ht' : D.isTrans b = false := by simpa using ht
-    obtain ⟨t, ch, h1, h2, h3, h4, h5⟩ := (hrun b ht').1 hr
+    obtain ⟨t, ch, h1, h2, h3, h4, h5⟩ := (hrun b (D.lt_of_call hc) ht').1 hr
     refine ⟨t, ch ++ [c], h1, h2, h3.ext h4 hc, ?_, by simp⟩
     rw [chainEn_append, h5]; simp [chainEn, he]
 
